@@ -382,3 +382,111 @@ def unit_huber_gradient():
                 ctx.prove(st, 'post:component %d == x_j / max(N_w(x), gamma) with the WEIGHTED pointwise norm' % j, core.sc_eq(low(content(res.comps[j])), want), info, replay=rp)
                 ctx.prove(st, 'frame:x[%d] untouched' % j, core.sc_eq(low(content(r['x'].comps[j])), xs[j]), info, replay=rp)
     return Unit('group/huber-gradient', run, funcs=[FUNCS + 'Huber.gradient'], config={})
+
+
+# --------------------------------------------------------------------------
+# SeparableSum: value, gradient, proximal (through the real combine_proximals), convex conjugate
+
+def unit_separable_sum(k):
+    """SeparableSum(f_0, ..., f_{k-1}) with arbitrary functionals f_i (known through uninterpreted values / gradient / proximal factory / conjugate):
+    f(x) = sum_i f_i(x_i) (component i with functional i); gradient == DiagonalOperator(grad f_0, ..., grad f_{k-1}); proximal(sigma) - the real combine_proximals runs -
+    == DiagonalOperator(prox_{sigma_i f_i}) with sigma_i = sigma for a scalar step and the i-th entry for a sequence; convex_conj == SeparableSum(f_0^*, ...).
+    DiagonalOperator acts component-wise (C03 ProductSpaceOperator._call contract on the diagonal pattern), so these are the gradient / proximal / conjugate of the sum in the
+    unweighted product space."""
+    def run(ctx):
+        I = ctx.I
+        from contracts import blocklib
+        FN = 'odl.solvers.functional.functional:'
+
+        def path(st):
+            tlib.install(st)
+            fr = ip.Frame(st)
+            X = makers.tspace(I, st, 'X', 'real')
+            P = PSp(I, st, X, k)
+            made = []
+
+            def ctor(cn):
+                def init(I_, fr_, self, *a, **kw):
+                    self.fields['ctor'] = (cn, tuple(a), dict(kw))
+                    made.append(self)
+                    return None
+                return init
+            st.cuts[blocklib.PSO + 'DiagonalOperator.__init__'] = ctor('DiagonalOperator')
+            st.cuts[FUNCS + 'SeparableSum.__init__'] = ctor('SeparableSum')
+            vals = {}
+
+            class Fn(object):
+                """an arbitrary functional"""
+
+                def __init__(self, i):
+                    self.i = i
+
+                def __repr__(self):
+                    return '<f%d>' % self.i
+
+                def pv_call(self, I_, fr_, a, kw):
+                    key = (self.i, id(a[0]))
+                    vals.setdefault(key, (S(z3.Real('f%d(%s)' % (self.i, getattr(a[0], 'ename', '?')))), a[0]))
+                    return vals[key][0]
+
+                def pv_getattr(self, I_, fr_, name):
+                    if name == 'gradient':
+                        return ('grad', self.i)
+                    if name == 'convex_conj':
+                        return ('conj', self.i)
+                    if name == 'proximal':
+                        me = self
+
+                        class Factory(object):
+                            def pv_call(self, I2, fr2, a, kw):
+                                return ('prox', me.i, a[0])
+                        return Factory()
+                    raise Unsupported('functional .%s' % name)
+            fs = [Fn(i) for i in range(k)]
+            f = ip.Obj(I.get_class(FUNCS + 'SeparableSum'))
+            f.fields.update({'_Operator__domain': P, '_Operator__range': None, '_Operator__is_linear': False, '_SeparableSum__functionals': tuple(fs)})
+            x = P.elem('x')
+            c, e = f.cls.lookup('_call')
+            out = {}
+            try:
+                out['val'] = I.call(I.bind_entry(f, c, '_call', e, fr), [x], {}, fr)
+                out['grad'] = I._getattr(f, 'gradient', fr)
+                out['conj'] = I._getattr(f, 'convex_conj', fr)
+                fac = I._getattr(f, 'proximal', fr)
+                sg = makers.pos_scalar(st, 'sigma')
+                out['prox_scalar'] = I.call(fac, [sg], {}, fr)
+                sgs = [makers.pos_scalar(st, 'sigma%d' % i) for i in range(k)]
+                out['prox_seq'] = I.call(fac, [list(sgs)], {}, fr)
+            except ip.PyRaise as ex:
+                return ('raise', ex.exc)
+            out.update(fs=fs, x=x, vals=vals, sg=sg, sgs=sgs)
+            return ('ok', out)
+        info = {'summands': k}
+        for st, (status, r) in ctx.explore(path):
+            if status == 'raise':
+                ctx.fail(st, 'no_raise', 'raises %s' % lib.exc_desc(r), info)
+                continue
+            vals, x = r['vals'], r['x']
+            pairs = sorted((i, [j for j, cpt in enumerate(x.comps) if cpt is el][0] if any(cpt is el for cpt in x.comps) else -1) for (i, _), (sym, el) in vals.items())
+            ctx.prove(st, 'value: every functional is evaluated once, functional i at component i', pairs == [(i, i) for i in range(k)], dict(info, got=repr(pairs)))
+            want = None
+            for (i, _), (sym, el) in sorted(vals.items()):
+                want = sym if want is None else want + sym
+            ctx.prove(st, 'value == sum_i f_i(x_i)', core.sc_eq(core._sc(r['val']), want) if want is not None else False, info)
+
+            def is_ctor(o, cn):
+                return isinstance(o, ip.Obj) and o.fields.get('ctor', (None,))[0] == cn
+            g = r['grad']
+            ctx.prove(st, 'gradient == DiagonalOperator(grad f_0, ..., grad f_{k-1})', is_ctor(g, 'DiagonalOperator') and list(g.fields['ctor'][1]) == [('grad', i) for i in range(k)] and not g.fields['ctor'][2],
+                      dict(info, got=repr(g.fields.get('ctor') if isinstance(g, ip.Obj) else g)))
+            cj = r['conj']
+            ctx.prove(st, 'convex_conj == SeparableSum(f_0^*, ..., f_{k-1}^*)', is_ctor(cj, 'SeparableSum') and list(cj.fields['ctor'][1]) == [('conj', i) for i in range(k)] and not cj.fields['ctor'][2],
+                      dict(info, got=repr(cj.fields.get('ctor') if isinstance(cj, ip.Obj) else cj)))
+            for label, res, steps in (('a scalar step: every component gets sigma', r['prox_scalar'], [r['sg']] * k), ('a sequence of steps: component i gets sigma_i', r['prox_seq'], r['sgs'])):
+                okp = is_ctor(res, 'DiagonalOperator') and len(res.fields['ctor'][1]) == k and not res.fields['ctor'][2]
+                if okp:
+                    for i, t in enumerate(res.fields['ctor'][1]):
+                        okp = okp and isinstance(t, tuple) and t[0] == 'prox' and t[1] == i and (t[2] is steps[i])
+                ctx.prove(st, 'proximal(sigma) == DiagonalOperator(prox_{sigma_i f_i}) - ' + label, okp, dict(info, got=repr(res.fields.get('ctor') if isinstance(res, ip.Obj) else res)))
+    return Unit('separable-sum/k=%d' % k, run, funcs=[FUNCS + 'SeparableSum._call', FUNCS + 'SeparableSum.gradient', FUNCS + 'SeparableSum.proximal', FUNCS + 'SeparableSum.convex_conj', PROX + 'combine_proximals'],
+                config={'summands': k})
